@@ -94,9 +94,11 @@ class NetworkxGraph(AbstractGraph):
             parent_modules: list of all parent modules in order, last element is the direct parent of the child module
             child: lowest element in the module hierarchy
         """
+        for parent in parent_modules:
+            self._create_node(parent)
+
         all_modules = parent_modules + [child]
         for parent, child in zip(all_modules[:-1], all_modules[1:]):
-            self._create_node(parent)
             self._create_edge(parent, child, inherits=True)
 
     def _create_node(self, node: Node) -> None:
